@@ -120,6 +120,22 @@ def run(ctx, res):
     cases.append({"name": "faulty-schema", "faulty": True, "schemaFiles": [{"rel": "schema/s0.graphql", "text": bad_schema}],
                   "opFiles": [{"rel": "ops/a.graphql", "text": "query Q { a }\n"}], "config": CONFIG,
                   "runs": 4 if ctx.quick else 12, "perms": [], "schemaOutput": "gen/schema.d.ts", "schemaSource": "../gen/schema.js"})
+    # runtime documents (generate.mode standalone-ts-4.0: the .graphql.ts files carry the document as a value): the fragments embedded
+    # with an operation, and their order, may not depend on the process.  A fragment composed of many others (in the file and imported),
+    # fragments reached along several paths, nesting three levels deep.
+    standalone = CONFIG.replace("    generate:\n", "    generate:\n      mode: standalone-ts-4.0\n")
+    comp = [("ops/card.graphql", "#import L1, L2, L3, L4, M1, M2, M3 from \"./lib.graphql\"\n"
+                                 "query Card { ...Card q { ...Deep } }\nquery Two { ...P3 ...P1 ...Card }\n"
+                                 "fragment Card on Query { ...P1 ...P2 ...P3 ...P4 ...P5 ...P6 ...L1 ...L2 q { ...L3 ...L4 ...P2 } }\n"
+                                 "fragment P1 on Query { a }\nfragment P2 on Query { b(x: 1) }\nfragment P3 on Query { q { a } }\n"
+                                 "fragment P4 on Query { n { id } }\nfragment P5 on Query { qs { a } }\nfragment P6 on Query { a2: a }\n"
+                                 "fragment Deep on Query { ...D1 ...D2 ...D3 ...D4 }\nfragment D1 on Query { ...E1 ...E2 ...E3 }\nfragment D2 on Query { ...E3 ...E4 ...E1 }\n"
+                                 "fragment D3 on Query { ...E2 ...E4 }\nfragment D4 on Query { a }\n"
+                                 "fragment E1 on Query { a }\nfragment E2 on Query { b }\nfragment E3 on Query { n { id } }\nfragment E4 on Query { q { a } }\n"),
+            ("ops/lib.graphql", "fragment L1 on Query { l1: a ...M1 ...M2 ...M3 }\nfragment L2 on Query { l2: a ...M3 ...M1 }\nfragment L3 on Query { l3: a }\n"
+                                "fragment L4 on Query { l4: a ...M2 }\nfragment M1 on Query { m1: a }\nfragment M2 on Query { m2: a }\nfragment M3 on Query { m3: a }\n")]
+    cases.append({"name": "standalone-composed-fragments", "schemaFiles": ops_schema, "opFiles": [{"rel": r, "text": t} for r, t in comp], "config": standalone, "opExt": "graphql.ts",
+                  "runs": 6 if ctx.quick else 16, "perms": [], "schemaOutput": "gen/schema.d.ts", "schemaSource": "../gen/schema.js"})
     vlib.write_ndjson(ctx.path("cases.ndjson"), cases)
     vlib.run_harness(["determ", vlib.CLI_BIN, ctx.path("cases.ndjson"), ctx.path("events.ndjson"), ctx.path("proj")], timeout=3000)
     events = vlib.read_ndjson(ctx.path("events.ndjson"))
@@ -135,7 +151,7 @@ def run(ctx, res):
     if bad_exit:
         raise vlib.ToolError("a C17 project does not generate cleanly: group %s" % bad_exit[0]["group"])
     res.rule = ("%d projects (3 catalogue projects: schema + operations incl. several Boolean variables, imports, unions/interfaces; 3 projects "
-                "carrying many diagnostics: several faults per site, per file, in operations and in the schema; one with six files of the same layout, i.e. diagnostics of different files at one line and column): %d fresh CLI "
+                "carrying many diagnostics: several faults per site, per file, in operations and in the schema; one with six files of the same layout, i.e. diagnostics of different files at one line and column; one in generate.mode standalone-ts-4.0 whose runtime documents embed fragments composed of many others, reached along several paths, local and imported): %d fresh CLI "
                 "processes each (Rust's per-process hash seeds) + the in-process library route must agree byte for byte (declarations, "
                 "source maps, server schema, stdout); spec->impl: Gen_C17 enumerates every permutation of %d blocks of schema definitions "
                 "x every split over two files (%d arrangements per project%s): verdict and every exported type alias (order-insensitive "
